@@ -6,6 +6,7 @@ import (
 	"os"
 	"regexp"
 	"runtime"
+	"sort"
 	"strings"
 	"time"
 
@@ -193,8 +194,17 @@ func (a Action) MultiPartsP(delimiter string, pattern string, f func(placeholder
 				}
 			}
 
+			// in a fixed order: where two segments yield the same value (a placeholder's callback and a static sibling,
+			// or two placeholders) the later one wins in the Batch below, so map order must not decide
+			keys := make([]string, 0, len(matchedSegments))
+			for key := range matchedSegments {
+				keys = append(keys, key)
+			}
+			sort.Strings(keys)
+
 			actions := make([]Action, 0, len(matchedSegments))
-			for key, value := range matchedSegments {
+			for _, key := range keys {
+				value := matchedSegments[key]
 				if trimmedKey := strings.TrimSuffix(key, delimiter); rPlaceholder.MatchString(trimmedKey) {
 					suffix := ""
 					if strings.HasSuffix(key, delimiter) {
